@@ -229,7 +229,7 @@ EnvReceive(name) ==
 \* the timer of the i-th pending delayed <send> fires (timer thread): the event joins the external queue.
 \* Enabled at any time -- the specification says nothing about real time (C09 has its own timed model).
 FireAt(M, i) == [M EXCEPT !.dq = SubSeq(@, 1, i - 1) \o SubSeq(@, i + 1, Len(@)),
-                          !.eq = Append(@, M.dq[i])]
+                          !.eq = Append(@, Ev(M.dq[i].name))]
 EnvFire ==
     /\ \E i \in 1..Len(m.dq) : m' = FireAt(m, i)
     /\ UNCHANGED <<ci, life, flags, ret, rootEntries>>
